@@ -1204,6 +1204,23 @@ pub fn main(ctx: &Ctx) -> i32 {
     if let Some(p) = &ctx.replay {
         return match read_replay::<Case>(p) {
             Ok(c) => finish_replay(ctx, run_case_mode(&c, Mode::Strict, &mut false), p),
+            Err(_) if read_replay::<crate::c09h::HCase>(p).is_ok() => {
+                // a case of the black-box tier
+                let hc = read_replay::<crate::c09h::HCase>(p).unwrap();
+                let work = std::path::Path::new(VERIF_ROOT).join("work").join(format!("{}-replay-{}", ctx.id, std::process::id()));
+                match crate::c09h::start_node(&work, ctx.seed) {
+                    Ok((mut cluster, target)) => {
+                        let rep = crate::c09h::run_case(&hc, &target);
+                        cluster.cleanup();
+                        std::fs::remove_dir_all(&work).ok();
+                        finish_replay(ctx, rep, p)
+                    }
+                    Err(e) => {
+                        eprintln!("cannot start the node of the black-box tier: {}", e);
+                        2
+                    }
+                }
+            }
             Err(e) => {
                 eprintln!("cannot read replay: {}", e);
                 2
@@ -1263,5 +1280,25 @@ pub fn main(ctx: &Ctx) -> i32 {
         }
         rep
     });
-    finish(ctx, &stats, fin(), fail)
+    if fail.is_some() {
+        return finish(ctx, &stats, fin(), fail);
+    }
+    // black-box tier (c09h.rs): generated histories through the shipped HTTP and gRPC handlers of a real single node
+    let work = std::path::Path::new(VERIF_ROOT).join("work").join(format!("{}-{}-{}", ctx.id, ctx.tier.name(), std::process::id()));
+    let failh = match crate::c09h::start_node(&work, ctx.seed) {
+        Ok((mut cluster, target)) => {
+            let n_h = ctx.tier.pick(300u32, 6_000u32);
+            let t2 = target.clone();
+            let f = run_cases(ctx, &stats, crate::c09h::case_strategy as fn() -> _, n_h, 8, 400, move |c| crate::c09h::run_case(c, &t2));
+            cluster.cleanup();
+            f
+        }
+        Err(e) => {
+            eprintln!("C09 black-box tier: node did not start ({}); the actor tier decides alone", e);
+            stats.label("blackbox_tier_unavailable");
+            None
+        }
+    };
+    std::fs::remove_dir_all(&work).ok();
+    finish(ctx, &stats, fin(), failh)
 }
